@@ -45,7 +45,13 @@ class TS:
 
 
 class Sched:
-    def __init__(self, choices=(), horizon=120.0, max_points=400000, step=0.001, trace_lines=None):
+    def __init__(self, choices=(), horizon=120.0, max_points=400000, step=0.001, trace_lines=None, policy="fair"):
+        # policy = the DEFAULT schedule (answer 0 at every point); deviations are counted relative to it:
+        #   fair       continue the running thread, else the longest-waiting enabled thread
+        #   lifo       continue the running thread, else the most recently run one (runs threads to their next block; slow others)
+        #   name / name-desc   continue the running thread, else by thread name
+        #   slow:<substr>      like fair, but threads whose name contains <substr> come last (a slow thread)
+        self.policy = policy
         self.choices = list(choices)
         self.taken = []
         self.arity = []
@@ -127,7 +133,37 @@ class Sched:
             self.abort(f"virtual time exceeded the horizon {self.horizon}s", "horizon")
             raise Abort()
         # canonical order: the running thread first if still enabled, then longest-waiting first
-        rest = sorted((t for t in enabled if t is not me), key=lambda t: (t.last_run, t.id))
+        pol = self.policy
+        if pol == "fair":
+            key = lambda t: (t.last_run, t.id)
+        elif pol == "lifo":
+            key = lambda t: (-t.last_run, t.id)
+        elif pol == "name":
+            key = lambda t: (t.name, t.id)
+        elif pol == "name-desc":
+            key = lambda t: (tuple(-ord(c) for c in t.name), t.id)
+        elif pol.startswith("slow:"):
+            sub = pol[5:]
+            key = lambda t: (1 if sub in t.name else 0, t.last_run, t.id)
+        else:
+            raise ValueError(pol)
+        rest = sorted((t for t in enabled if t is not me), key=key)
+        if pol.startswith("slow:") and me in enabled and pol[5:] in me.name and rest and pol[5:] not in rest[0].name:
+            # a slow thread is preempted by default whenever a normal thread is enabled
+            enabled = [t for t in enabled if t is not me] + [me]
+            order = rest + [me]
+            idx = self._pick(len(order), label) if len(order) > 1 else 0
+            nxt = order[idx]
+            nxt.last_run = self.points
+            if nxt is me:
+                return
+            self.current = nxt
+            nxt.sem.release()
+            if me.state != "done":
+                me.sem.acquire()
+                if self.aborted is not None:
+                    raise Abort()
+            return
         order = ([me] if me in enabled else []) + rest
         idx = self._pick(len(order), label) if len(order) > 1 else 0
         nxt = order[idx]
